@@ -54,6 +54,13 @@ def step (s : St) (line : String) : St × String :=
         (s, m ++ " ||| " ++ (if impl == m then "ok" else "bad:launch-relevant-difference-ignored " ++ g ++ " " ++ a ++ " " ++ b))
       else (s, "bad-op")
     | _, _, _ => (s, "bad-op")
+  | ["upvar", ch] =>
+    -- a project-level variable rendered into `p`'s command changes (1) or not (0): `p` is updated -
+    -- old instance terminated, a new one launched with the new command - exactly when it changes;
+    -- `q` keeps its instance either way
+    let m := if ch == "1" then "status=[p:updated] names=[p,q] launches=3 stops=1 inst=[p:n,q:k] cmd=run_two"
+             else "status=[] names=[p,q] launches=2 stops=0 inst=[p:k,q:k] cmd=run_one"
+    (s, m ++ " ||| " ++ (if impl == m then "ok" else "bad:a process whose rendered launch configuration changed (project-level variable) must be updated, one whose did not must be kept: want " ++ m))
   | ["upinit", sp] =>
     let cur := parseSpec sp
     let insts := applyUpdate [] (projOf cur) 0
